@@ -92,10 +92,17 @@ let adm_model head toks =
   let c = adm_cfg head in
   let evs, _ = adm_events toks in
   let s = ref Peers.init in
+  let hist = ref [] in
   let out = smap (fun (kind, ev, clock) ->
       let tag = match kind, ev with
-        | `Add, Some e -> let (s', d) = Peers.step c !s e in s := s'; if d then "a11" else "a00"
-        | `Done, Some e -> let (s', _) = Peers.step c !s e in s := s'; "x"
+        | `Add, Some (Peers.Add (p, _) as e) ->
+          let (s', d) = Peers.step c !s e in s := s';
+          (* Connected(): a refused peer is disconnected by the handler; a peer that was delivered to
+             Done before has disconnected already *)
+          let gone = Peers.was_done !hist p.Peers.pid in
+          hist := !hist @ [e];
+          if d then (if gone then "a10" else "a11") else "a00"
+        | `Done, Some e -> let (s', _) = Peers.step c !s e in s := s'; hist := !hist @ [e]; "x"
         | `Ban, Some e -> let (s', _) = Peers.step c !s e in s := s'; "b"
         | `Tick, _ -> "t"
         | _ -> "?" in
@@ -119,7 +126,7 @@ let parse_ost (d : string) : Peers.ost =
 let adm_class = function
   | 1 -> "above-total-limit" | 2 -> "above-host-limit" | 3 -> "host-counter-wrong" | 4 -> "group-counter-wrong"
   | 5 -> "admitted-while-banned" | 6 -> "refused-without-cause" | 7 -> "decision-state-mismatch"
-  | 8 -> "left-peer-still-admitted" | 9 -> "count-field-wrong" | _ -> "unclassified"
+  | 8 -> "left-peer-still-admitted" | 9 -> "count-field-wrong" | 10 -> "admitted-after-it-left" | _ -> "unclassified"
 
 let adm_spec head toks obs =
   let c = adm_cfg head in
@@ -144,8 +151,11 @@ let adm_spec head toks obs =
               (match kind, ev with
                | `Add, Some e ->
                  if String.length tag <> 3 || tag.[0] <> 'a' then failwith "tag";
-                 (* a rejected peer must have been disconnected, an admitted one left connected *)
-                 if tag.[1] <> tag.[2] then failwith "connected";
+                 (* a rejected peer must have been disconnected by the handler, an admitted one must
+                    be connected (an admitted peer that is not connected is reported by the oracle
+                    as admitted-after-it-left when it had been delivered to Done before) *)
+                 let gone = (match e with Peers.Add (p, _) -> Peers.was_done (Stdlib.List.rev !mevs) p.Peers.pid | _ -> false) in
+                 if tag.[1] <> tag.[2] && not (tag = "a10" && gone) then failwith "connected";
                  mevs := e :: !mevs; mobs := ((tag.[1] = '1'), o) :: !mobs
                | (`Done | `Ban), Some e -> mevs := e :: !mevs; mobs := (false, o) :: !mobs
                | _ -> ())) pairs;
@@ -211,18 +221,17 @@ let cm_spec head toks obs =
             | None -> failwith "word"
             | Some i ->
               let tag = String.sub w 0 i and d = String.sub w (i + 1) (String.length w - i - 1) in
-              if tag = "!" then res := Printf.sprintf "FAIL reaction-missing step %d: the manager did not react within the bound" idx
-              else match split_on '/' d with
+              (match split_on '/' d with
                 | [o; wq; dl; n; b] ->
                   let num s = strict_int (String.sub s 1 (String.length s - 1)) in
                   let dsum = Stdlib.List.fold_left (fun acc (_, v) -> acc + iz v) 0 (parse_kv (String.sub dl 1 (String.length dl - 1))) in
                   (match int_of_nat (ConnMgr.cm_check (zi t) (zi (num o)) (zi (num wq)) (zi dsum) (zi (num b))) with
-                   | 0 -> ()
+                   | 0 -> if tag = "!" then res := Printf.sprintf "FAIL reaction-missing step %d: the manager did not react within the bound" idx
                    | 1 -> res := Printf.sprintf "FAIL above-target step %d: %s" idx d
                    | 2 -> res := Printf.sprintf "FAIL slot-lost-after-address-ban step %d: %s (target %d)" idx d t
                    | 4 -> res := Printf.sprintf "FAIL too-many-requests step %d: %s" idx d
                    | _ -> res := Printf.sprintf "FAIL slot-lost step %d: %s (target %d)" idx d t)
-                | _ -> failwith "digest") ws;
+                | _ -> failwith "digest")) ws;
       !res
     with Failure m -> "FAIL malformed-observable " ^ m
 
